@@ -846,6 +846,41 @@ static void crash_handler(int sig, siginfo_t *si, void *uc)
 #endif
 
 /* ------------------------------------------------------------------ init */
+/* ------------------------------------------------------------ signal storm
+ * --sigstorm=<Hz>: a thread delivers SIGUSR1 (no-op handler installed WITHOUT SA_RESTART) to random
+ * threads of the process, workers of the library included: every blocking system call of the library
+ * (sem_timedwait, futex, epoll_wait, read, write) then also returns EINTR at arbitrary points. An
+ * interrupted wait is neither a time-out nor a wake-up. */
+static _Atomic uint64_t g_sig_sent;
+static int g_sigstorm_hz;
+static void vf_sig_noop(int s) { (void)s; }
+static void *sigstorm_main(void *arg)
+{
+	(void)arg;
+	int self = vf_gettid(), pid = (int)getpid();
+	vf_rng_t r; vf_rng_seed(&r, vf_opts.seed, 0x516);
+	int tids[512], n = 0; uint64_t refreshed = 0;
+	for (;;) {
+		uint64_t now = vf_now_ns(CLOCK_MONOTONIC);
+		if (!n || now - refreshed > 20000000ull) {
+			n = 0; refreshed = now;
+			DIR *d = opendir("/proc/self/task");
+			if (d) {
+				struct dirent *e;
+				while ((e = readdir(d)) && n < 512) { int t = atoi(e->d_name); if (t > 0 && t != self) tids[n++] = t; }
+				closedir(d);
+			}
+		}
+		if (n) { syscall(SYS_tgkill, pid, tids[vf_rnd_n(&r, (uint32_t)n)], SIGUSR1); atomic_fetch_add(&g_sig_sent, 1); }
+		long period = 1000000000l / g_sigstorm_hz;
+		struct timespec ts = { 0, (long)vf_rnd_n(&r, (uint32_t)(2 * period)) + 1 };
+		if (ts.tv_nsec >= 1000000000l) ts.tv_nsec = 999999999l;
+		nanosleep(&ts, NULL);
+	}
+	return NULL;
+}
+uint64_t vf_signals_sent(void) { return atomic_load(&g_sig_sent); }
+
 void vf_init(int argc, char **argv, const char *harness)
 {
 	g_harness = harness;
@@ -882,6 +917,14 @@ void vf_init(int argc, char **argv, const char *harness)
 		sigaction(SIGILL, &sa, NULL); sigaction(SIGSEGV, &sa, NULL); sigaction(SIGABRT, &sa, NULL);
 		g_trace = 1;
 	}
+	g_sigstorm_hz = (int)vf_opt_long("sigstorm", 0);
+	if (g_sigstorm_hz > 0) {
+		struct sigaction sa; memset(&sa, 0, sizeof(sa));
+		sa.sa_handler = vf_sig_noop;   /* no SA_RESTART */
+		sigaction(SIGUSR1, &sa, NULL);
+		pthread_t st;
+		if (pthread_create(&st, NULL, sigstorm_main, NULL)) vf_fail("cannot start the signal thread");
+	}
 	/* observation (and TSO annotation) is always on; delays only per profile */
 	g_prof.kind = VF_P_OFF;
 	_dispatch_verif_atomic_hook = vf_atomic_hook;
@@ -905,6 +948,7 @@ int vf_finish(void)
 	for (int i = 0; i < n; i++) {
 		fprintf(stdout, "%s\"%s\":%llu", i ? "," : "", g_ctrs[i].name, (unsigned long long)atomic_load(&g_ctrs[i].v));
 	}
+	if (g_sigstorm_hz > 0) fprintf(stdout, "%s\"signals_delivered\":%llu", n ? "," : "", (unsigned long long)atomic_load(&g_sig_sent));
 	fputs("},", stdout);
 	vf_sites_emit_json(stdout);
 	fputs("}\n", stdout);
